@@ -290,6 +290,10 @@ SPECIAL_SEQS = [
     ("surrogate-hi", b"\xed\xa0\x80"), ("surrogate-lo", b"\xed\xb0\x80"), ("surrogate-pair", b"\xed\xa0\xbd\xed\xb8\x80"),
     ("ff", b"\xff"), ("c0", b"\xc0"), ("c1", b"\xc1"), ("f5", b"\xf5"), ("beyond-max", b"\xf4\x90\x80\x80"),
     ("lone-cont", b"\x80"), ("cont-run", b"\x80\xbf\x80"), ("replacement", b"\xef\xbf\xbd"), ("tab", b"\t"),
+    # block-comment openers / closers that share or lack their star
+    ("cmt-slash-star-slash", b"/*/"), ("cmt-empty", b"/**/"), ("cmt-one-star", b"/***/"), ("cmt-nested-look", b"/*/*/"),
+    ("cmt-spaced-closer", b"/* * / */"), ("cmt-line-in-block", b"/*// x */"), ("cmt-block-in-line", b"// /* x\n"),
+    ("cmt-closer-only", b"*/"), ("cmt-star-run", b"/****"), ("cmt-open-close-open", b"/**//*"),
 ]
 
 SPECIAL_BASES = [
